@@ -259,7 +259,7 @@ pub fn run(ctx: &Arc<Ctx>) {
     refmodels::selftest::run(&["sm4"]).unwrap_or_else(|e| ctx.machinery_error(format!("reference self-test failed: {}", e)));
     corpus_selftest(ctx);
     let lmax = ctx.tier.pick(200usize, 600);
-    ctx.set_rule("mode x every data length 0..=Lmax x {standard key, seeded key} x IV in {0, seeded, last j bytes 0xFF for j=0..=16} x content {zero, seeded}: ciphertext = reference mode output (length included), library decrypts the reference ciphertext back to the data. Error side: IV lengths 0..=32, CBC ciphertext of every length 0..=Lmax, CBC final plaintext byte every value 0..=255 (well-formed and malformed padding). Plus all operation sequences to depth 3 (thorough 4) on one mode object per mode. Oracle: textbook modes over the reference block cipher, pinned by an OpenSSL-generated corpus.");
+    ctx.set_rule("mode x every data length 0..=Lmax x {standard key, seeded key} x IV in {0, seeded, last j bytes 0xFF for j=0..=16} x content {zero, seeded}, and long data {255..257, 1023..1025, 4095..4097, 4111, 65553 bytes; thorough up to 2^20+5} x IVs whose counter is about to carry out of 1, 2 and 8 bytes: ciphertext = reference mode output (length included), library decrypts the reference ciphertext back to the data. Error side: IV lengths 0..=32, CBC ciphertext of every length 0..=Lmax, CBC final plaintext byte every value 0..=255 (well-formed and malformed padding). Plus all operation sequences to depth 3 (thorough 4) on one mode object per mode. Oracle: textbook modes over the reference block cipher, pinned by an OpenSSL-generated corpus.");
     ctx.note_bound(format!("Lmax={}", lmax));
     let seed_key = hex::encode(seeded(ctx.seed, "c07key", 16));
     let mut ivs: Vec<String> = vec![hex::encode([0u8; 16]), hex::encode(seeded(ctx.seed, "c07iv", 16))];
@@ -285,6 +285,27 @@ pub fn run(ctx: &Arc<Ctx>) {
             if ivlen != 16 {
                 for datalen in [0usize, 16, 33] {
                     cases.push(Case::BadIv { mode: mode.into(), ivlen, datalen });
+                }
+            }
+        }
+    }
+    // long data: around 16, 64 and 256 blocks, 4 KiB and 64 KiB (batching of blocks, 8/16-bit block counters), with the
+    // CTR counter about to carry out of its low byte, low two bytes and low eight bytes
+    {
+        let mut ivs_long: Vec<String> = vec![ivs[1].clone()];
+        for j in [1usize, 2, 8] {
+            let mut iv = seeded(ctx.seed, "c07ivl", 16);
+            for b in 0..j {
+                iv[15 - b] = 0xff;
+            }
+            iv[15] = 0xfe;
+            ivs_long.push(hex::encode(iv));
+        }
+        let longs: Vec<usize> = ctx.tier.pick(vec![255usize, 256, 257, 1023, 1024, 1025, 4095, 4096, 4097, 4111, 65536 + 17], vec![255, 256, 257, 1023, 1024, 1025, 4095, 4096, 4097, 4111, 8191, 8192, 8209, 65535, 65536, 65536 + 17, (1 << 20) + 5]);
+        for mode in MODES {
+            for len in &longs {
+                for iv in &ivs_long {
+                    cases.push(Case::Mode { mode: mode.into(), len: *len, key: seed_key.clone(), iv: iv.clone(), content: "seed".into() });
                 }
             }
         }
